@@ -340,8 +340,42 @@ def gen_limits(tier):
     return out
 
 
+def gen_leibniz(tier):
+    """derivatives of integrals with variable bounds"""
+    bnds = ['0', '1', 'x', '2 * x', 'x ^ 2', 'x + 1']
+    bodies = ['t', 't * x', 'sin(t)', 'exp(t * x)', 't ^ 2 + x', 'cos(t) * x']
+    return ['D x. INT t:[%s,%s]. %s' % (lo, hi, b) for lo in bnds for hi in bnds if lo != hi for b in bodies]
+
+
+def gen_constructed(tier):
+    """expressions built with the constructors (constants that the parser never produces directly: negative numbers and
+    negative fractions as operands of every operator, on both sides)"""
+    from fractions import Fraction
+    from integral import expr
+    x = expr.Var('x')
+    cs = [expr.Const(Fraction(-1, 2)), expr.Const(-2), expr.Const(Fraction(3, 2)), expr.Const(Fraction(-5, 3)), expr.Const(2)]
+    out = []
+    for c in cs:
+        for op in ('+', '-', '*', '/', '^'):
+            out.append(expr.Op(op, c, x))
+            out.append(expr.Op(op, x, c))
+            out.append(expr.Op(op, expr.Op('+', x, expr.Const(1)), c))
+            if op != '/':
+                # a quotient of two constants is folded into one constant by the parser (by design): not generated
+                for c2 in cs[:3]:
+                    out.append(expr.Op(op, c, c2))
+        out.append(expr.Op('-', c))
+        out.append(expr.Fun('sin', c))
+        out.append(expr.Fun('abs', expr.Op('*', c, x)))
+        out.append(expr.Op('^', expr.Op('-', x), c))
+        out.append(expr.Op('-', expr.Op('^', x, c)))
+        out.append(expr.Op('^', expr.Op('^', x, c), expr.Const(2)))
+    return out
+
+
 def gen_families(tier):
-    return [('simplify', len(gen_exprs(bounds(tier)['generated_ops']))), ('integral', len(gen_integrals(tier))), ('limit', len(gen_limits(tier)))]
+    return [('simplify', len(gen_exprs(bounds(tier)['generated_ops']))), ('integral', len(gen_integrals(tier))), ('limit', len(gen_limits(tier))),
+            ('leibniz', len(gen_leibniz(tier))), ('constructed', len(gen_constructed(tier)))]
 
 
 def rules_for_integral(e):
@@ -457,6 +491,45 @@ def run_gen(case, tier):
                     bad2, _ = apply_and_compare(new, 'FullSimplify after ' + rn, rules.FullSimplify(), ctx, npoints, s)
                     if bad2:
                         return bad2
+    elif fam == 'leibniz':
+        ctx = context.Context()
+        ctx.load_book('base')
+        for s in gen_leibniz(tier)[lo:hi]:
+            try:
+                e = parser.parse_expr(s)
+            except Exception:
+                cnt('generated: not parsable')
+                continue
+            for rn, r in (('DerivativeSimplify', rules.DerivativeSimplify()), ('FullSimplify', rules.FullSimplify())):
+                bad, new = apply_and_compare(e, rn, r, ctx, npoints, s)
+                if bad:
+                    return bad
+                if new is not None and new != e:
+                    n_ok += 1
+    elif fam == 'constructed':
+        ctx = context.Context()
+        for e in gen_constructed(tier)[lo:hi]:
+            key = repr(e)
+            try:
+                text = str(e)
+                back = parser.parse_expr(text)
+            except Exception as ex:
+                return viol('print-parse', key, 'the printed form of %r cannot be parsed back: %s' % (e, ex))
+            res, detail = compare(e, back, ctx, npoints, 'print/parse')
+            cnt('generated print/parse: ' + res)
+            if res == 'differ':
+                return viol('print-parse', key, '%r is printed as %r, which parses to %r. %s' % (e, text, back, detail))
+            if res == 'agree':
+                n_ok += 1
+            # the parser folds constants (-(3/2) becomes the constant -3/2), so the text may change once; what the parser
+            # produced must then be stable under printing and parsing
+            try:
+                back2 = parser.parse_expr(str(back))
+            except Exception as ex:
+                return viol('print-parse', key, '%r parsed from %r is printed as %r, which cannot be parsed: %s' % (back, text, str(back), ex))
+            if back2 != back:
+                return viol('print-parse', key, '%r (parsed from %r) is printed as %r, which parses to the different expression %r' % (
+                    back, text, str(back), back2))
     elif fam == 'limit':
         ctx = context.Context()
         ctx.load_book('base')
